@@ -26,11 +26,12 @@ DRIVER_LAYOUTS = ['plain', 'samestat', 'empty-base', 'null-base', 'del-remote']
 # branch would os.remove('/dev/null') when run as root.
 
 # step boundaries at which exactly one fault is injected (in-process)
-STEPS_MERGE = ['read:base', 'read:local', 'read:remote', 'merge', 'diff:1', 'diff:2', 'decide', 'apply',
+STEPS_MERGE = ['missing:base', 'missing:local', 'missing:remote', 'corrupt:base', 'corrupt:local', 'corrupt:remote',
+               'read:base', 'read:local', 'read:remote', 'merge', 'diff:1', 'diff:2', 'decide', 'apply',
                'write-call', 'open-out', 'write:1', 'write:2', 'close-out', 'write-after']
-STEPS_DELBOTH = ['read:base', 'remove-out']
+STEPS_DELBOTH = ['missing:base', 'corrupt:base', 'read:base', 'remove-out']
 # faults that strike before the first byte of the result is written: the output location must be untouched
-BEFORE_WRITE = {'read:base', 'read:local', 'read:remote', 'merge', 'diff:1', 'diff:2', 'decide', 'apply',
+BEFORE_WRITE = {'missing:base', 'missing:local', 'missing:remote', 'corrupt:base', 'corrupt:local', 'corrupt:remote', 'read:base', 'read:local', 'read:remote', 'merge', 'diff:1', 'diff:2', 'decide', 'apply',
                 'write-call', 'open-out', 'remove-out', 'kill:merge', 'kill:write-call'}
 KILL_STEPS = ['kill:merge', 'kill:write-call']
 
@@ -256,6 +257,24 @@ class Fault:
         self.fired = False
 
 
+def damage_input(step, p):
+    """the faults that are a state of the file system rather than a raised exception: an input file that has
+    vanished ('missing:<which>') or is cut off in the middle ('corrupt:<which>'). Applied BEFORE the snapshot."""
+    kind, which = step.split(':')
+    path = p[which]
+    if path == NULL:
+        raise HarnessError('cannot damage a placeholder')
+    if kind == 'missing':
+        os.remove(path)
+    else:
+        with open(path, 'rb') as fh:
+            data = fh.read()
+        if len(data) < 2:
+            raise HarnessError('cannot cut a %d-byte file in the middle' % len(data))
+        with open(path, 'wb') as fh:
+            fh.write(data[:len(data) // 2])
+
+
 class _FileProxy:
     """wraps the file object opened on the output; fails the k-th write (after half of it) or the close"""
     def __init__(self, real, fault, fail_write=None, fail_close=False):
@@ -357,11 +376,12 @@ def inject(step, p):
     elif step == 'merge':
         patches.append((app, 'merge_notebooks', once(MemoryError)))
     elif step.startswith('diff:'):
-        patches.append((mn, 'diff_notebooks', nth(mn.diff_notebooks, int(step[5:]), MemoryError)))
+        k = int(step[5:])
+        patches.append((mn, 'diff_notebooks', nth(mn.diff_notebooks, k, MemoryError if k == 1 else KeyboardInterrupt)))
     elif step == 'decide':
         patches.append((mn, 'decide_merge_with_diff', once(MemoryError)))
     elif step == 'apply':
-        patches.append((mn, 'apply_decisions', once(MemoryError)))
+        patches.append((mn, 'apply_decisions', once(lambda: RuntimeError('injected fault while applying decisions'))))
     elif step == 'write-call':
         patches.append((nbformat, 'write', once(enospc)))
     elif step == 'write-after':
@@ -422,21 +442,23 @@ def status_of(value):
 
 
 def invoke_inproc(app, argv):
-    """-> (status, how, exception or None); an exception propagating out of main() is a failure exit (status 1)"""
+    """-> (status, how, exception or None, stdout bytes); an exception propagating out of main() is a failure exit (status 1)"""
     if app == 'driver':
         from nbdime.vcs.git import mergedriver as mod
     else:
         import nbdime.nbmergeapp as mod
     old_out, old_err = sys.stdout, sys.stderr
-    sys.stdout, sys.stderr = io.StringIO(), io.StringIO()
+    cap = sys.stdout = io.StringIO()
+    sys.stderr = io.StringIO()
+    out = lambda: cap.getvalue().encode('utf8')
     try:
         try:
             rc = mod.main(list(argv))
-            return status_of(rc), 'returned %r' % (rc,), None
+            return status_of(rc), 'returned %r' % (rc,), None, out()
         except SystemExit as exc:
-            return status_of(exc.code), 'SystemExit(%r)' % (exc.code,), None
+            return status_of(exc.code), 'SystemExit(%r)' % (exc.code,), None, out()
         except BaseException as exc:          # KeyboardInterrupt, MemoryError, ...: the interpreter would exit non-zero
-            return 1, 'raised %s' % type(exc).__name__, exc
+            return 1, 'raised %s' % type(exc).__name__, exc, out()
     finally:
         sys.stdout, sys.stderr = old_out, old_err
 
